@@ -1,5 +1,6 @@
 import LentilVerif.Model.Propagate
 import LentilVerif.Gen.FftScratch
+import LentilVerif.Gen.Util
 /-! Executable model of `lentil.propagate.propagate_fft` (`_fft_shape`, shape/scratch guards, scratch zero-and-insert,
 `lentil.util.pad`, `_fft2`), generic in the value type. `np.fft.fft2(norm='ortho')`, `fftshift`, `ifftshift` are modelled
 by their documented contracts (unitary DFT with origin at index 0; index rotations by `±floor(n/2)`). Mathlib-free. -/
@@ -9,21 +10,23 @@ namespace Lentil
 class FftLike (R : Type) where
   roundEven : R → Int
   min : R → R → R
+  /-- the comparison `a > b` of the scalars (the shape guard compares floats) -/
+  gt : R → R → Bool
 
 variable {K R : Type}
 
 section shape
 variable [Add R] [Sub R] [Mul R] [Div R] [RealLike R] [FftLike R]
 
-/-- `_fft_shape`: `fft_shape = round(1/alpha)` per axis; `alpha` as written at the call site (generated `Gen.fftAlphaCall`:
+/-- `_fft_shape`: `fft_shape = round(1/alpha)` per axis; `alpha` as wired at the call sites (generated `Gen.fftShapeAlpha` → `Gen.fftAlphaCall`:
 `_dft_alpha(dx, du, z, wavelength, oversample)`, i.e. `z` and `wavelength` in each other's slot — harmless, they are multiplied) -/
 def fftShape (dx0 dx1 du0 du1 z wl : R) (os : Int) : Int × Int :=
-  let α := Gen.fftAlphaCall dx0 dx1 du0 du1 z wl (RealLike.ofInt os)
+  let α := Gen.fftShapeAlpha dx0 dx1 du0 du1 z wl (RealLike.ofInt os)
   (FftLike.roundEven (RealLike.ofInt 1 / α.1), FftLike.roundEven (RealLike.ofInt 1 / α.2))
 
 /-- `_fft_shape`: `prop_wavelength = min((fft_shape/oversample * dx * du)/z)` -/
-def propWavelength (S0 S1 : Int) (dx0 dx1 du0 du1 z : R) (os : Int) : R :=
-  let w := Gen.fftWavelengths (RealLike.ofInt S0) (RealLike.ofInt S1) dx0 dx1 du0 du1 z (RealLike.ofInt os)
+def propWavelength (S0 S1 : Int) (dx0 dx1 du0 du1 z wl : R) (os : Int) : R :=
+  let w := Gen.fftReportedWavelengths (RealLike.ofInt S0) (RealLike.ofInt S1) dx0 dx1 du0 du1 z wl (RealLike.ofInt os)
   FftLike.min w.1 w.2
 end shape
 
@@ -52,18 +55,18 @@ def fft2c (x : Arr K) : Arr K :=
   { F with get := fun i j => F.get (npFftshiftIdx x.s0 i) (npFftshiftIdx x.s1 j) }
 end fft
 
-/-- `lentil.util.pad(array, shape)` for a 2-D array (zero-pad or centre-crop per axis, origins `floor(n/2)` aligned) -/
-def padTo [Zero K] (a : Arr K) (S0 S1 : Int) : Arr K :=
-  let r := if S0 - a.s0 ≤ 0 then (a.s0 / 2 - S0 / 2, (0 : Int), S0) else (0, S0 / 2 - a.s0 / 2, a.s0)
-  let c := if S1 - a.s1 ≤ 0 then (a.s1 / 2 - S1 / 2, (0 : Int), S1) else (0, S1 / 2 - a.s1 / 2, a.s1)
-  { s0 := S0, s1 := S1,
-    get := fun i j =>
-      if decide (r.2.1 ≤ i) && decide (i < r.2.1 + r.2.2) && decide (c.2.1 ≤ j) && decide (j < c.2.1 + c.2.2)
-      then a.get (i - r.2.1 + r.1) (j - c.2.1 + c.1) else 0 }
-
 /-- index `(i, j)` lies in the slice region `[r0:r1, c0:c1]` -/
 def inRegion (r : (Int × Int) × (Int × Int)) (i j : Int) : Bool :=
   decide (r.1.1 ≤ i) && decide (i < r.1.2) && decide (r.2.1 ≤ j) && decide (j < r.2.2)
+
+/-- `lentil.util.pad(array, shape)` for a 2-D array: `padded[rmin1:rmax1, cmin1:cmax1] = array[rmin0:rmax0, cmin0:cmax0]` with the
+generated index block `Gen.padIdx2` (zero-pad or centre-crop per axis, origins `floor(n/2)` aligned) -/
+def padTo [Zero K] (a : Arr K) (S0 S1 : Int) : Arr K :=
+  { s0 := S0, s1 := S1,
+    get := fun i j =>
+      let ix := Gen.padIdx2 a.s0 a.s1 S0 S1
+      if inRegion ((ix.2.1, ix.2.2.1), (ix.2.2.2.1, ix.2.2.2.2)) i j
+      then a.get (i - ix.2.1 + ix.1.1) (j - ix.2.2.2.1 + ix.1.2.2.1) else 0 }
 
 /-- `scratch[<zero region>] = 0` then read back through the `S0 x S1` view handed to `insert`/`_fft2`: zero inside the
 zeroed region (generated: `Gen.scratchZero`, re-translated from the source on every run), old content elsewhere.
@@ -77,23 +80,39 @@ inductive FftOut (K R : Type) where
   | valueError : FftOut K R                -- shape larger than the grid / scratch too small
   | ok (wavelength : R) (S0 S1 : Int) (shapeOut : Int × Int) (field : Fld K) : FftOut K R
 
-/-- `np.any(shape > fft_shape/oversample)` over the integers: `shape*os > fft_shape` on some axis -/
+section guards
+variable [Add R] [Sub R] [Mul R] [Div R] [RealLike R] [FftLike R]
+/-- the shape guard `np.any(shape > fft_shape/oversample)` (generated `Gen.fftShapeTooBig`, evaluated on the scalars) -/
 def shapeTooBig (shape : Option (Int × Int)) (S : Int × Int) (os : Int) : Bool :=
   match shape with
   | none => false
-  | some sh => decide (sh.1 * os > S.1) || decide (sh.2 * os > S.2)
+  | some sh => Gen.fftShapeTooBig (R := R) FftLike.gt (RealLike.ofInt sh.1) (RealLike.ofInt sh.2) (RealLike.ofInt S.1) (RealLike.ofInt S.2)
+      (RealLike.ofInt os)
+end guards
 
-/-- `shape_out`: the whole grid when `shape is None`, else `shape * oversample` -/
+/-- `shape_out` (generated): the whole grid when `shape is None`, else `shape * oversample` -/
 def fftShapeOut (shape : Option (Int × Int)) (S : Int × Int) (os : Int) : Int × Int :=
   match shape with
-  | none => S
-  | some sh => (sh.1 * os, sh.2 * os)
+  | none => Gen.fftShapeOutNone S.1 S.2 os
+  | some sh => Gen.fftShapeOutSome sh.1 sh.2 os
 
-/-- `not all(scratch.shape >= fft_shape)` -/
+/-- the scratch guard `not all(scratch.shape >= fft_shape)` (generated) -/
 def scratchTooSmall (scratch : Option (Arr K)) (S : Int × Int) : Bool :=
   match scratch with
   | none => false
-  | some scr => !(decide (scr.s0 ≥ S.1) && decide (scr.s1 ≥ S.2))
+  | some scr => Gen.fftScratchTooSmall scr.s0 scr.s1 S.1 S.2
+
+section scratchshape
+variable [Add R] [Sub R] [Mul R] [Div R] [RealLike R] [FftLike R]
+/-- `lentil.propagate.scratch_shape(wavelength, dx, du, z, oversample)`; `maxWl` = `np.max(wavelength)` -/
+def scratchShape (maxWl dx0 dx1 du0 du1 z : R) (os : Int) : Int × Int :=
+  let α := Gen.scratchShapeAlpha dx0 dx1 du0 du1 z maxWl (RealLike.ofInt os)
+  (FftLike.roundEven (RealLike.ofInt 1 / α.1), FftLike.roundEven (RealLike.ofInt 1 / α.2))
+
+/-- metadata of the wavefront returned by `propagate_fft` (generated hand-over): wavelength, pixelscale, focal length -/
+def fftMeta (lam dx0 dx1 du0 du1 z wl : R) (os : Int) : R × (R × R) × R :=
+  Gen.fftOutMeta lam dx0 dx1 du0 du1 z wl (RealLike.ofInt os)
+end scratchshape
 
 section prop
 variable [Add R] [Sub R] [Mul R] [Neg R] [Div R] [RealLike R] [FftLike R] [Add K] [Mul K] [Zero K] [CxLike K R]
@@ -111,8 +130,8 @@ def propagateFft (one : K) (fs : List (Fld K)) (hasTilt : Bool) (W0 W1 : Int) (d
     (shape : Option (Int × Int)) (scratch : Option (Arr K)) : FftOut K R :=
   if hasTilt then .notImplemented else
   let S := fftShape dx0 dx1 du0 du1 z wl os
-  let lam := propWavelength S.1 S.2 dx0 dx1 du0 du1 z os
-  if shapeTooBig shape S os then .valueError else
+  let lam := propWavelength S.1 S.2 dx0 dx1 du0 du1 z wl os
+  if shapeTooBig (R := R) shape S os then .valueError else
   if scratchTooSmall scratch S then .valueError else
   .ok lam S.1 S.2 (fftShapeOut shape S os) { arr := fft2c (R := R) (fftGrid one fs W0 W1 S.1 S.2 scratch), o0 := 0, o1 := 0 }
 end prop
